@@ -154,6 +154,17 @@ pub fn replay_item(out: &mut Out, bv: &Value, rng: &mut Rng, n: usize) {
                         }
                     }
                 }
+                // integers that are not doubles, of either sign, and the ends of the range (eval_i64; also as Integers of eval_number)
+                if e == "i64" || e == "num" {
+                    for n in [9007199254740993i64, -9007199254740993, i64::MAX, i64::MIN, i64::MIN + 1, i64::MAX - 1, 4611686018427387903, -4611686018427387905, 1234567890123456789, -1234567890123456789] {
+                        let ph = if e == "i64" { Val::I(n) } else { Val::N(Number::Integer(n)) };
+                        let mut asg = Asg::default();
+                        asg.fns.insert(1, func.to_string());
+                        let t = T::Call("f1".into(), 1, vec![T::Ans(3)]);
+                        let exp = expected(e, &t, &asg, &ph);
+                        checked_call(out, e, &format!("{}(@)", spell), &ph, Some(&exp), json!({"v": "accept"}), true, &ctx);
+                    }
+                }
                 // the ends of the Decimal format (no double reaches them): largest, smallest, the neighbours of 1 and of 0
                 if e == "dec" {
                     for ph in dec_extremes() {
